@@ -14,13 +14,13 @@ loss of the connection has been processed (a new will registered), until the nex
 accepted. -/
 theorem C01_gate (cd : Nat) (acts : List Act) (s : St) (tr : List Obs)
     (h : runActs (init cd) acts = some (s, tr)) : gateOk false none tr = true := by
-  sorry
+  exact gate_runActs acts (init cd) s false none tr (SInv_init cd) (GInv_init cd) h
 
 /-- on every connection the first hand-over after the subscriptions is the NBIRTH (the NDEATH and
 disconnect of a cancel excepted) -/
 theorem C01_first_after_subscribe (cd : Nat) (acts : List Act) (s : St) (tr : List Obs)
     (h : runActs (init cd) acts = some (s, tr)) : firstAfterSubOk false tr = true := by
-  sorry
+  exact fas_runActs acts (init cd) s false tr (SInv_init cd) (fun hw => by cases hw) h
 
 /-- every seq-bearing hand-over in the log was made while the node was online and birthed, and
 `birthed` implies `online` -/
@@ -28,7 +28,8 @@ theorem C01_data_only_when_birthed (cd : Nat) (acts : List Act) (s : St) (tr : L
     (h : runActs (init cd) acts = some (s, tr)) :
     (∀ c ∈ s.calls, c.kind.bearsSeq = true → c.gOnline = true ∧ c.gBirthed = true) ∧
     (s.birthed = true → s.online = true) := by
-  sorry
+  have hi := SInv_runActs acts (init cd) s tr (SInv_init cd) h
+  exact ⟨hi.cg, hi.bo⟩
 
 /-- **A publish in any of those states returns an error and emits nothing**: a node-handle
 publish of a non-empty batch taken while the node is not (online and birthed) ends with an error
@@ -39,7 +40,7 @@ theorem C01_node_publish_refused (s : St) (j : Nat) (isTry : Bool) (n : Nat) (de
     (hgate : ¬ (s.online = true ∧ s.birthed = true))
     (h : (step s (.user j) dec)[k]? = some (s', o)) :
     (o = [.ures j .offline] ∨ o = [.ures j .unbirthed]) ∧ s'.calls = s.calls ∧ s'.seq = s.seq := by
-  sorry
+  exact node_publish_refused s j isTry n dec (s', o) hn hu hgate (List.mem_of_getElem? h)
 
 /-- the same through a device handle; additionally refused when the device is not birthed in the
 current node birth -/
@@ -50,6 +51,6 @@ theorem C01_device_publish_refused (s : St) (j d : Nat) (isTry : Bool) (n : Nat)
              (∀ x, findDev d s.devs = some x → x.flag = false ∨ x.epoch ≠ s.epoch))
     (h : (step s (.user j) dec)[k]? = some (s', o)) :
     (o = [.ures j .offline] ∨ o = [.ures j .unbirthed]) ∧ s'.calls = s.calls ∧ s'.seq = s.seq := by
-  sorry
+  exact device_publish_refused s j d isTry n dec (s', o) hn hu hgate (List.mem_of_getElem? h)
 
 end Srad.Eon
